@@ -34,6 +34,16 @@ func main() {
 	vh.Main("c10", func(e *vh.Env) {
 		if e.Replay != "" {
 			parts := strings.SplitN(e.Replay, ":", 2)
+			if parts[0] == "alias" && len(parts) == 2 { // fixed members: the number is the member, not a seed
+				k, err := strconv.Atoi(parts[1])
+				if err != nil {
+					panic(err)
+				}
+				for _, c := range aliasCase(k) {
+					e.Emit(c)
+				}
+				return
+			}
 			g, ok := gens[parts[0]]
 			if !ok || len(parts) != 2 {
 				panic("c10: bad replay argument " + e.Replay)
@@ -121,7 +131,14 @@ func main() {
 		for _, c := range pendingLarge {
 			e.Emit(c)
 		}
-		e.Meta["generator"] = "c10/v5"
+		// round 8: ReWrite with an argument that is a slice of the buffer itself; fixed members, after everything
+		// else so that no random stream of the classes above moves
+		for k := range aliasMembers() {
+			for _, c := range aliasCase(k) {
+				e.Emit(c)
+			}
+		}
+		e.Meta["generator"] = "c10/v6"
 		e.Meta["experiments"] = vol
 		e.Meta["string_prefix_cap_stream"] = prefixCap
 	})
